@@ -901,7 +901,7 @@ func TestVerifC08Rtmp(t *testing.T) {
 		return vL(vZ(3), vZ(0), vI(hs), vLs(msgs), vI(term), vI(tog), segs, ks)
 	}
 	// every cut offset of small sessions
-	nSmall := k.N(24, 400)
+	nSmall := k.N(36, 400)
 	for i := 0; i < nSmall; i++ {
 		msgs, wl := vC08GenMsgs(k.rnd, true, false)
 		for j := 0; j < 3; j++ {
@@ -915,7 +915,7 @@ func TestVerifC08Rtmp(t *testing.T) {
 		runOne(rdCase(1, msgs, vC08TermRead(k.rnd), k.rnd.intn(2), vC08GenSegs(k.rnd), vL(vZ(0), vZ(0), vI(wl+vC08HsLen))), false)
 	}
 	// larger sessions: every offset when the byte budget allows, else every chunk/item boundary +-2 and random offsets
-	nLarge := k.N(12, 80)
+	nLarge := k.N(16, 80)
 	for i := 0; i < nLarge; i++ {
 		msgs, wl := vC08GenMsgs(k.rnd, false, false)
 		marks := []int{}
